@@ -176,6 +176,8 @@ def h_check(H):
             raised = isinstance(e.exc, AssertionError)
             if not raised:
                 raise
+        it.ctx.oblige("check.compared_inside_loop", z3.BoolVal(len(it.ctx.assert_log) == 1), "post",
+                      "each window's comparison is asserted inside the window loop (one assertion per iteration)")
         it.ctx.oblige("check.flag_not_set_inside_loop", z3.BoolVal(conv.check_completed is False), "post", "check_completed is still False while windows are being compared")
         it.ctx.oblige("check.windows_tile", term(env.vars["wg"].overlap) == 0, "post")
         if not raised:
@@ -200,8 +202,10 @@ def h_check(H):
             it.ctx.assume(z3.And(r0 >= 0, r0 < L, c0 >= 0, c0 < napch))
             it.ctx.instantiate(part, c0)
             # the passed assertion is a quantified fact (np.array_equal): instantiate it at the arbitrary element (proof hint)
-            eqs = [h for h in it.ctx.pc if z3.is_quantifier(h) and h.is_forall() and h.num_vars() == 2 and "origV" in h.sexpr()[:20000]]
-            assert eqs, "check_NP24: the assertion did not produce an array equality"
+            eqs = [h for h in it.ctx.pc if any(z3.eq(h, a_[2]) for a_ in it.ctx.assert_log)]
+            if not eqs:
+                it.ctx.oblige("check.window_compared", z3.BoolVal(False), "post", "no comparison of original and reassembled data was made inside the window loop")
+                return
             it.ctx.instantiate(eqs[-1], r0, c0)
             rs = z3.Int(fresh_name("rs"))
             it.ctx.assume(z3.And(rs >= 0, rs < L))
